@@ -7,6 +7,7 @@ KComp  == {"composite"}
 MAll   == {"-", "OnDelete", "Recreate", "InPlace"}
 MTwo   == {"Recreate", "InPlace"}
 PAll   == {"none", "first", "all", "ordinal"}
+PBad   == {"none", "first", "all", "ordinal", "badlabel"}
 PTwo   == {"first", "ordinal"}
 ScAll  == {"NsNs", "ClNs", "ClCl", "NsCm"}
 ScOne  == {"NsNs"}
